@@ -215,6 +215,25 @@ type scenario struct {
 	bi         int
 	st         *Stats
 	rev        []int
+	writeAt    map[string]time.Time // object id -> when its SET was acknowledged
+	hanging    []*Attempt           // requests left unanswered (hang): the client gives up after its timeout
+	lastArrive time.Time
+}
+
+// quiet reports whether nothing can be on its way to an endpoint: the on-disk queue is empty, no request is held
+// or hanging, and no request has arrived for a while (a sender that holds a batch in memory sends at once).
+func (s *scenario) quiet(since time.Duration) bool {
+	for _, a := range s.held {
+		if a != nil && !a.Gone() {
+			return false
+		}
+	}
+	for _, a := range s.hanging {
+		if !a.Gone() {
+			return false
+		}
+	}
+	return time.Since(s.lastArrive) > since && s.r.srv.S.VerifIdle()
 }
 
 func (s *scenario) hookOf(a *Attempt) int {
@@ -237,6 +256,7 @@ func (s *scenario) mismatch(hook int, class, text string) {
 
 // take files an arrived request under its hook.
 func (s *scenario) take(a *Attempt) {
+	s.lastArrive = time.Now()
 	h := s.hookOf(a)
 	if os.Getenv("NOTIFY_DEBUG") != "" {
 		fmt.Fprintf(os.Stderr, "%s arrival port=%d path=%s id=%s detect=%s\n", time.Now().Format("15:04:05.000"), a.EP.Port, a.Path, a.ID, a.Detect)
@@ -334,6 +354,7 @@ func (s *scenario) pump(wait time.Duration) {
 // await returns the request hook h has in flight, waiting for it to arrive.
 func (s *scenario) await(h int, patience time.Duration) *Attempt {
 	deadline := time.Now().Add(patience)
+	var quietSince time.Time
 	for {
 		if a := s.held[h]; a != nil {
 			if !a.Gone() {
@@ -347,6 +368,16 @@ func (s *scenario) await(h int, patience time.Duration) *Attempt {
 		}
 		left := time.Until(deadline)
 		if left <= 0 {
+			return nil
+		}
+		if quietSince.IsZero() {
+			if s.quiet(500 * time.Millisecond) {
+				quietSince = time.Now()
+			}
+		} else if !s.quiet(500 * time.Millisecond) {
+			quietSince = time.Time{}
+		} else if time.Since(quietSince) > 2500*time.Millisecond {
+			// the queue has been empty and nothing has moved for 3 s (six retry periods): no attempt will come
 			return nil
 		}
 		select {
@@ -386,7 +417,8 @@ func (r *Runner) Run(bi int, sc *Script, st *Stats) ([]Mismatch, error) {
 	stall := NewStall(r.srv.Dir)
 	defer stall.Stop()
 	s := &scenario{r: r, sc: sc, bi: bi, st: st, tag: fmt.Sprintf("n%d-%d-%d", os.Getpid()%1000, r.id, r.seq),
-		keys: map[int]string{}, arrivals: make(chan *Attempt, 1024), accounted: map[string]int{}}
+		keys: map[int]string{}, arrivals: make(chan *Attempt, 1024), accounted: map[string]int{}, writeAt: map[string]time.Time{},
+		lastArrive: time.Now()}
 	var mine []*Endpoint
 	for h, hk := range sc.Hooks {
 		for _, e := range hk.Eps {
@@ -489,6 +521,7 @@ func (r *Runner) Run(bi int, sc *Script, st *Stats) ([]Mismatch, error) {
 			if err != nil || v.Kind != '+' || v.Str != "OK" {
 				return s.out, fail("SET", v, err)
 			}
+			s.writeAt[fmt.Sprintf("o%04d", ev.W)] = time.Now()
 			st.Writes++
 		case "flip":
 			// the status of the model's endpoint is carried out attempt by attempt (see "try"): the outcome of
@@ -599,6 +632,7 @@ func (r *Runner) Run(bi int, sc *Script, st *Stats) ([]Mismatch, error) {
 						}
 					case "hang":
 						a.Decide(Hang)
+						s.hanging = append(s.hanging, a)
 						s.accounted[url(ev.H, r.epIndex(ev.H, a.EP))]++
 						st.Hangs++
 						if ev.Pos > 1 {
@@ -623,7 +657,6 @@ func (r *Runner) Run(bi int, sc *Script, st *Stats) ([]Mismatch, error) {
 	}
 
 	// ---- recovery and quiescence
-	tooLong := sc.MaxClock == 0 && time.Since(t0) > 18*time.Second // the model's clock stands still: the real 30 s retention must not matter
 	s.auto = true
 	if err := openAll(); err != nil {
 		return s.out, err
@@ -651,9 +684,19 @@ func (r *Runner) Run(bi int, sc *Script, st *Stats) ([]Mismatch, error) {
 		return true
 	}
 	settleStart := time.Now()
+	var quietSince time.Time
 	for !allThere() && time.Since(settleStart) < r.o.Settle {
 		s.pump(20 * time.Millisecond)
+		// when the queue is empty and nothing moves any more, what is missing will not come: no need to wait on
+		if !s.quiet(500 * time.Millisecond) {
+			quietSince = time.Time{}
+		} else if quietSince.IsZero() {
+			quietSince = time.Now()
+		} else if time.Since(quietSince) > 2500*time.Millisecond {
+			break
+		}
 	}
+	settleEnd := time.Now()
 	late := make([]int, nh) // messages still missing when the patience ran out
 	stuck := false
 	if !allThere() {
@@ -670,6 +713,7 @@ func (r *Runner) Run(bi int, sc *Script, st *Stats) ([]Mismatch, error) {
 			if err != nil || v.Kind != '+' {
 				return s.out, fail("sentinel SET", v, err)
 			}
+			s.writeAt[fmt.Sprintf("~s%d", round)] = time.Now()
 		}
 		seen := func() bool {
 			for h := 0; h < nh; h++ {
@@ -729,6 +773,7 @@ func (r *Runner) Run(bi int, sc *Script, st *Stats) ([]Mismatch, error) {
 		}
 	}
 	before := len(s.out)
+	tooOld := false
 	for h := 0; h < nh; h++ {
 		var obs []obsMsg
 		afterSentinel := false
@@ -744,7 +789,25 @@ func (r *Runner) Run(bi int, sc *Script, st *Stats) ([]Mismatch, error) {
 		}
 		st.HooksCompared++
 		st.MsgsCompared += len(expected[h])
-		if class, text := compareSeq(obs, expected[h]); class != "" {
+		class, text := compareSeq(obs, expected[h])
+		if class == "lost" && sc.MaxClock == 0 {
+			// the model's clock stands still; the real retention is 30 s: a message that was older than that when the
+			// endpoints had recovered and everything had settled may have been dropped by it - not judged
+			seen := map[obsMsg]bool{}
+			for _, m := range obs {
+				seen[m] = true
+			}
+			young := false
+			for _, m := range expected[h] {
+				if at, ok := s.writeAt[m.id]; !seen[m] && (!ok || settleEnd.Sub(at) < 26*time.Second) {
+					young = true
+				}
+			}
+			if !young {
+				tooOld = true
+			}
+		}
+		if class != "" {
 			s.mismatch(h+1, class, fmt.Sprintf("hook %s (key %d, detect %v, endpoints %v): %s; accepted by the endpoint: %v; specification (generated, in write order, minus retention): %v",
 				s.names[h], sc.Hooks[h].Key, sc.Hooks[h].Kinds, sc.Hooks[h].Eps, text, obs, expected[h]))
 		} else if late[h] > 0 {
@@ -765,8 +828,8 @@ func (r *Runner) Run(bi int, sc *Script, st *Stats) ([]Mismatch, error) {
 			reason = "a request was answered after its client had given up"
 		case usedTicks && s.tainted:
 			reason = "retention script could not be followed on its time grid"
-		case tooLong:
-			reason = "script without ticks took longer than 18 s"
+		case tooOld:
+			reason = "the missing messages were older than the 30 s retention when the endpoints had recovered"
 		}
 		if reason != "" {
 			// too slow to judge
